@@ -68,7 +68,11 @@ impl Worker {
 
                     println!("Worker {} got a job; executing.", id);
 
-                    job();
+                    // a panicking job must not take the worker thread with it
+                    let boxed_run = std::panic::catch_unwind(std::panic::AssertUnwindSafe(job));
+                    if boxed_run.is_err() {
+                        eprintln!("Worker {} -> job panicked", id);
+                    }
                 }
 
             }
